@@ -291,6 +291,9 @@ func (e *Eval) Execute(obj interface{}) (out object.Object, error error) {
 
 	// Catch errors when we're executing.
 	defer func() {
+		// No scope survives a run, however it ended.
+		e.environment.RestoreScopes(0)
+
 		if r := recover(); r != nil {
 			out = &object.Null{}
 			error = fmt.Errorf("error during Run: %s", r)
